@@ -614,7 +614,7 @@ static void c10_lists (void)
 }
 
 void run_c10 (void)
-{	static const int chans [] = { 0, 1, 2, 3, 8, 9, 256, 257, 1024, 1025 } ;
+{	static const int chans [] = { 0, 1, 2, 3, 8, 9, 127, 128, 255, 256, 257, 1024, 1025 } ;	/* 127 / 128 / 255: where a count stops fitting a signed or an unsigned byte (or, byte-swapped, turns negative) */
 	static const int rates [] = { -1, 0, 1, 8000, 44100, 2147483647 } ;
 	static const int endians [4] = { SF_ENDIAN_FILE, SF_ENDIAN_LITTLE, SF_ENDIAN_BIG, SF_ENDIAN_CPU } ;
 	static const char *endn [4] = { "file", "le", "be", "cpu" } ;
